@@ -76,7 +76,7 @@ def Seg.ringPairsOf (R : Int) (s : Seg) (off a : Int) : List (Int × Int) :=
 /-- `ProjDataInfoCTI`: ring-difference ranges and axial counts of segments `0, 1, …` (positive side);
     `none` for the argument combinations the source rejects with `error`. -/
 def ctiPositive (span maxDelta R : Int) : Option (List Seg) :=
-  if maxDelta > R - 1 ∨ span < 1 ∨ span > 2 * R - 1 ∨ maxDelta < (span - 1).tdiv 2 then none
+  if maxDelta > R - 1 ∨ span < 1 ∨ span > 2 * R - 1 ∨ maxDelta < span.tdiv 2 then none
   else
     let min0 := if span.tmod 2 == 1 then -((span - 1).tdiv 2) else -(span.tdiv 2)
     let max0 := if span.tmod 2 == 1 then min0 + span - 1 else min0 + span
